@@ -94,6 +94,7 @@ type Ctx struct {
 	frameOn  bool               // heap frame of the function under verification is checked
 	frameT   map[string][]*Term // heap key -> objects named by modifies/sets (entry state)
 	protect  []*Clause          // protects clauses of the function under verification
+	inlineStack []*ssa.Function // contract-less helpers being executed in place (recursion guard)
 	bridging bool // abstract fields of concrete request/response objects read their struct fields
 }
 
